@@ -513,6 +513,8 @@ static RunOutcome check_crash(const std::string &prop, const Plan &P, int tier) 
                     std::map<int, int64_t> bound; durable_bounds(img, Msub, bound);
                     for (auto &kv : bound) {
                         auto it = lens.find(kv.first);
+                        bool asked = false; for (auto &ro : P.reads) if (ro.kind == RD_LEN && ro.sig == kv.first) asked = true;
+                        if (it == lens.end() && !asked) continue;      // the read program never asked for this length (minimised plans)
                         if (it == lens.end()) { add_violation(lv, "C03", "boundary_signal_unreadable", where + fmt(": signal %d has %lld durable samples but its length cannot be read", kv.first, (long long) kv.second)); continue; }
                         if (it->second < kv.second) add_violation(lv, "C03", "boundary_loses_durable_samples", where + fmt(": signal %d reopened with %lld samples, but %lld samples are in complete data chunks before the in-flight block", kv.first, (long long) it->second, (long long) kv.second));
                     }
@@ -540,7 +542,7 @@ static RunOutcome check_crash(const std::string &prop, const Plan &P, int tier) 
                 add_violation(lv, "C03", "boundary_open_failed", where + fmt(": jls_rd_open returned %d although the stop is between two writes and every definition is on disk (writer was in op %d %s)", d1.open_rc, cur_op, cur_op >= 0 && cur_op < (int) P.ops.size() ? op_names[P.ops[cur_op].kind] : "-"));
             }
             });
-            if (torn_inplace) { for (auto &v : iso.v) if (v.prop == "C19") v.cls = "torn_inplace_" + v.cls; out.ctr["images_torn_inplace"]++; }
+            if (torn_inplace) { for (auto &v : iso.v) v.cls = "torn_inplace_" + v.cls; out.ctr["images_torn_inplace"]++; }
             { std::map<std::string, int> per; for (auto &x : all) per[x.prop + x.cls]++; for (auto &v : iso.v) if (all.size() < 200 && per[v.prop + v.cls]++ < 3) all.push_back(v); }
             for (auto &kv : iso.o.ctr) out.ctr[kv.first] += kv.second;
             out.nontrivial_units += iso.o.nontrivial_units; for (uint64_t u : iso.o.unit_hashes) out.unit_hashes.push_back(u);
